@@ -263,3 +263,30 @@ def check_laws(rows):
             if from_parser:
                 cnt["float_accepted"] = cnt.get("float_accepted", 0) + 1
     return cnt, fails
+
+
+THEADER = """From Coq Require Import List NArith ZArith.
+From Coq.Strings Require Import Byte.
+Import ListNotations.
+From BWValues Require Import Bytes Values TimeCodec.
+"""
+
+
+def time_eval(ctx, name, rows, shard=4000):
+    """rows of h_values -mode time; returns indices on which the Gallina RFC3339Nano codec (TimeCodec.v, evaluated in Coq)
+    disagrees with Go's Time.Format / time.Parse.  Format rows outside the codec's domain are skipped."""
+    use = [r for r in rows if r["kind"] == "tparse" or (r["kind"] == "tfmt" and r["dom"])]
+    bad = []
+    for k in range(0, len(use), shard):
+        part = use[k:k + shard]
+        items = []
+        for r in part:
+            if r["kind"] == "tfmt":
+                items.append("TFmt %s %s" % (c_time(r["t"]), cb(r["text"])))
+            else:
+                items.append("TParse %s %s" % (cb(r["in"]), "None" if r["res"] is None else "(Some %s)" % c_time(r["res"])))
+        v = THEADER + "Definition cases : list tcase := [\n" + ";\n".join(items) + "].\n"
+        v += "Definition M := Eval vm_compute in tmismatches_from 0%N cases.\nPrint M.\n"
+        out = vcheck.coq_eval(ctx.work, "%s_%d" % (name, k), v)
+        bad += [use[k + i] for i in vcheck.parse_nat_list(out, "M")]
+    return use, bad
